@@ -5,6 +5,7 @@ import (
 	"math/rand/v2"
 	"sort"
 	"strconv"
+	"strings"
 )
 
 var kinds = []string{"primary", "before", "after", "whopper"}
@@ -15,6 +16,15 @@ type tmpl struct {
 	name    string
 	flavors []Flavor
 	methods []Method
+}
+
+// templates named holders/...: not the first `limit` admissible histories but
+// holderSpread histories spread evenly over (up to 6000 of) them
+func holderSpread(tier string) int {
+	if tier == "thorough" {
+		return 120
+	}
+	return 10
 }
 
 func fl(comps ...int) Flavor { return Flavor{Comps: comps} }
@@ -46,6 +56,25 @@ func buildTemplates(tier string) []tmpl {
 					ms = append(ms, Method{F: f, Kind: kind, Msg: "m"})
 				}
 				out = append(out, tmpl{name: fmt.Sprintf("%s/%d/%s", sh.name, si, kind), flavors: sh.flavors, methods: ms})
+			}
+		}
+	}
+	// holder subsets: the same method kind on EVERY non-empty subset of the flavors of every
+	// shape, on the user message m and on the vanilla message :init (whose combination list ends
+	// in vanilla-flavor's primary, so a component's daemon is spliced in before the end): which
+	// flavors hold a daemon decides how long each flavor's combination list is when another
+	// flavor inherits it, and that a flavor's list is never changed by the flavors that use it
+	for _, sh := range shapes {
+		nf := len(sh.flavors)
+		for mask := 1; mask < 1<<nf; mask++ {
+			for _, mk := range []struct{ msg, kind string }{{"init", "before"}, {"init", "after"}, {"m", "before"}, {"m", "after"}, {"m", "primary"}, {"m", "whopper"}} {
+				var ms []Method
+				for f := 0; f < nf; f++ {
+					if mask>>f&1 == 1 {
+						ms = append(ms, Method{F: f, Kind: mk.kind, Msg: mk.msg})
+					}
+				}
+				out = append(out, tmpl{name: fmt.Sprintf("holders/%s/%s-%s/%d", sh.name, mk.msg, mk.kind, mask), flavors: sh.flavors, methods: ms})
 			}
 		}
 	}
@@ -443,7 +472,16 @@ func tmplBlock(tier string) *block {
 	var variants []Case
 	for _, t := range buildTemplates(tier) {
 		t := t
-		for n, steps := range extensions(&t, limit) {
+		ext := extensions(&t, limit)
+		if strings.HasPrefix(t.name, "holders/") {
+			all := extensions(&t, 6000)
+			ext = nil
+			n := min(holderSpread(tier), len(all))
+			for k := 0; k < n; k++ {
+				ext = append(ext, all[k*len(all)/n])
+			}
+		}
+		for n, steps := range ext {
 			c := Case{Tmpl: t.name, Rel: true, Flavors: t.flavors, Methods: t.methods, Steps: steps}
 			b.cases = append(b.cases, c)
 			if variantBases[t.name] && n < 24 {
